@@ -152,12 +152,24 @@ type exprSpec struct {
 	Add    int64 `json:"add"`
 	GT     bool  `json:"gt,omitempty"`
 	GTV    int64 `json:"gtv,omitempty"`
+	NameRe []int `json:"namere,omitempty"` // Go-side only: {__name__=~"n1|n2"} instead of the name
 }
 
 func (e exprSpec) String() string {
 	s := nameStr(e.Name)
 	if e.MK != 0 {
 		s += fmt.Sprintf(`{%s="%s"}`, labelNames[e.MK], valStr(e.MV))
+	}
+	if len(e.NameRe) > 0 {
+		ns := make([]string, len(e.NameRe))
+		for i, n := range e.NameRe {
+			ns[i] = nameStr(n)
+		}
+		s = `{__name__=~"` + strings.Join(ns, "|") + `"`
+		if e.MK != 0 {
+			s += fmt.Sprintf(`,%s="%s"`, labelNames[e.MK], valStr(e.MV))
+		}
+		s += "}"
 	}
 	if e.By {
 		var ls []string
@@ -228,6 +240,8 @@ type sut struct {
 	groups  map[int]*rules.Group
 	gspec   map[int]op
 	iter    map[int]chan struct{} // signalled by the group's (no-op) evaluation iteration function
+	conc    bool                  // concurrent rule evaluation enabled (comparison run)
+	delays  map[string]time.Duration
 	base    int64
 	apps    []*appLog
 	queries int
@@ -295,7 +309,9 @@ func (s *sut) Appender(ctx context.Context) storage.Appender {
 
 func (s *sut) violf(f string, a ...any) { s.viol = append(s.viol, fmt.Sprintf(f, a...)) }
 
-func newSut(eng *promql.Engine, metrics *rules.Metrics) (*sut, error) {
+const delayUnit = 10 * time.Millisecond
+
+func newSut(eng *promql.Engine, metrics *rules.Metrics, conc bool) (*sut, error) {
 	st, err := teststorage.NewWithError(func(o *tsdb.Options) {
 		// per-case storages: no WAL, small series-map striping, no exemplar ring (none is used);
 		// sample admission and querying are unaffected
@@ -308,17 +324,30 @@ func newSut(eng *promql.Engine, metrics *rules.Metrics) (*sut, error) {
 		return nil, err
 	}
 	s := &sut{st: st, groups: map[int]*rules.Group{}, gspec: map[int]op{}, iter: map[int]chan struct{}{}, commit: make(chan struct{}, 16),
-		parser: parser.NewParser(parser.Options{}), stats: map[string]int{}}
+		parser: parser.NewParser(parser.Options{}), stats: map[string]int{}, conc: conc, delays: map[string]time.Duration{}}
 	s.base = (time.Now().UnixMilli()/1000)*1000 - 3*3600*1000
 	inner := rules.EngineQueryFunc(eng, st)
 	s.qf = func(ctx context.Context, q string, t time.Time) (promql.Vector, error) {
 		s.mtx.Lock()
 		s.queries++
+		d := s.delays[q]
 		s.mtx.Unlock()
+		if d > 0 {
+			// concurrent comparison run: earlier rules answer later, so that a consumer that is
+			// wrongly batched with its producer really runs first
+			time.Sleep(d)
+		}
 		return inner(ctx, q, t)
 	}
 	s.opts = &rules.ManagerOptions{Context: context.Background(), Queryable: st, Appendable: s,
 		QueryFunc: s.qf, Metrics: metrics}
+	if conc {
+		// as cmd/prometheus with --enable-feature=concurrent-rule-eval: NewManager fills in the
+		// concurrent RuleConcurrencyController and the RuleDependencyController
+		s.opts.ConcurrentEvalsEnabled = true
+		s.opts.MaxConcurrentEvals = 4
+		rules.NewManager(s.opts)
+	}
 	return s, nil
 }
 
@@ -332,6 +361,17 @@ func (s *sut) newGroup(o op) (*rules.Group, chan struct{}, error) {
 			return nil, nil, fmt.Errorf("parse %q: %w", r.E.String(), err)
 		}
 		rs[i] = rules.NewRecordingRule(nameStr(r.Name), e, r.Labels.toLabels())
+	}
+	if s.conc {
+		// Manager.LoadGroups: dependencies between the rules are analysed and stored on the rules
+		s.opts.RuleDependencyController.AnalyseRules(rs)
+		s.mtx.Lock()
+		for i, r := range o.Rules {
+			if d := time.Duration(len(o.Rules)-1-i) * delayUnit; d > s.delays[r.E.String()] {
+				s.delays[r.E.String()] = d
+			}
+		}
+		s.mtx.Unlock()
 	}
 	off := time.Duration(o.Off) * time.Millisecond
 	ch := make(chan struct{}, 1)
@@ -387,6 +427,10 @@ func (s *sut) exec(o op) []event {
 	case "eval":
 		g, ok := s.groups[o.G]
 		if !ok {
+			return nil
+		}
+		if s.conc {
+			g.Eval(ctx, time.UnixMilli(s.base+o.T)) // only the storage contents are compared
 			return nil
 		}
 		n := len(s.gspec[o.G].Rules)
@@ -525,6 +569,45 @@ func (s *sut) dump() []seriesDump {
 	if ss.Err() != nil {
 		s.violf("select: %v", ss.Err())
 	}
+	return out
+}
+
+// batches: what the real dependency analysis and the real concurrent controller make of the
+// rules of a (re)load: rule indexes + 1, every batch terminated by 0.
+func (s *sut) batches(ana *rules.ManagerOptions, o op) []int64 {
+	rs := make([]rules.Rule, len(o.Rules))
+	for i, r := range o.Rules {
+		e, err := s.parser.ParseExpr(r.E.String())
+		if err != nil {
+			s.violf("parse %q: %v", r.E.String(), err)
+			return nil
+		}
+		rs[i] = rules.NewRecordingRule(nameStr(r.Name), e, r.Labels.toLabels())
+	}
+	ana.RuleDependencyController.AnalyseRules(rs)
+	g := rules.NewGroup(rules.GroupOptions{Name: "ana", File: "f", Interval: time.Minute, Rules: rs, Opts: ana})
+	var out []int64
+	for _, b := range ana.RuleConcurrencyController.SplitGroupIntoBatches(context.Background(), g) {
+		for _, i := range b {
+			out = append(out, int64(i)+1)
+		}
+		out = append(out, 0)
+	}
+	return out
+}
+
+// canonical text of the storage contents (relative timestamps), for comparing two runs
+func (s *sut) dumpText() []string {
+	var out []string
+	for _, d := range s.dump() {
+		var sb strings.Builder
+		sb.WriteString(d.L.String())
+		for i := range d.Ts {
+			fmt.Fprintf(&sb, " %d:%x", s.canonT(d.Ts[i]), math.Float64bits(d.Vs[i]))
+		}
+		out = append(out, sb.String())
+	}
+	sort.Strings(out)
 	return out
 }
 
@@ -791,13 +874,20 @@ func (g *genState) newGroupOp(gid int) op {
 // reloads: add, remove, move, duplicate, change expression (same key), change labels (new key),
 // move a rule to another group, identical reload, change limit/offset
 func (g *genState) reload() []op {
-	r := g.r
 	ids := g.gids()
 	if len(ids) == 0 {
 		return nil
 	}
-	gid := ids[r.Intn(len(ids))]
-	cur := g.groups[gid]
+	return g.reloadOf(ids[g.r.Intn(len(ids))])
+}
+
+func (g *genState) reloadOf(gid int) []op {
+	r := g.r
+	ids := g.gids()
+	cur, ok := g.groups[gid]
+	if !ok {
+		return nil
+	}
 	rs := cloneRules(cur.Rules)
 	off, limit := cur.Off, cur.Limit
 	switch k := r.Intn(11); {
@@ -952,7 +1042,13 @@ func genCase(r *gen.Rand, tier string) []op {
 			}
 		}
 		if r.Chance(35, 100) {
-			ops = append(ops, g.reload()...)
+			rl := g.reload()
+			ops = append(ops, rl...)
+			// a second reload of the same group before it was evaluated: the pending
+			// staleSeries of the first reload must survive the second CopyState
+			if len(rl) > 0 && r.Chance(1, 3) {
+				ops = append(ops, g.reloadOf(rl[len(rl)-1].G)...)
+			}
 		}
 		if len(g.groups) < 3 && r.Chance(1, 10) {
 			for id := 0; id < 3; id++ {
@@ -1057,6 +1153,19 @@ func corpus() [][]op {
 		{Kind: "eval", G: 0, T: 615000},
 		{Kind: "eval", G: 0, T: 630000},
 	})
+	// 7: two reloads without an evaluation in between: the series of the rule removed by the
+	// first reload are still marked at the next evaluation (CopyState inherits staleSeries)
+	out = append(out, []op{
+		{Kind: "load", G: 0, Rules: []ruleSpec{r0, r1}},
+		{Kind: "raw", L: m0a0, T: 600000, V: 5},
+		{Kind: "eval", G: 0, T: 600000},
+		{Kind: "load", G: 0, Rules: []ruleSpec{r1}},
+		{Kind: "load", G: 0, Rules: []ruleSpec{{Name: 11, E: exprSpec{Name: 10, Mul: 3, Add: 1}}}},
+		{Kind: "load", G: 0, Rules: []ruleSpec{{Name: 11, E: exprSpec{Name: 10, Mul: 3, Add: 2}}}, Limit: 3},
+		{Kind: "raw", L: m0a0, T: 615000, V: 6},
+		{Kind: "eval", G: 0, T: 615000},
+		{Kind: "eval", G: 0, T: 630000},
+	})
 	// 6: rule labels merge two series -> ErrDuplicateRecordingLabelSet: nothing written, no markers,
 	// previous series kept; limit exceeded likewise
 	out = append(out, []op{
@@ -1071,6 +1180,112 @@ func corpus() [][]op {
 		{Kind: "eval", G: 0, T: 1000000},
 	})
 	return out
+}
+
+func hasRegex(ops []op) bool {
+	for _, o := range ops {
+		for _, r := range o.Rules {
+			if len(r.E.NameRe) > 0 {
+				return true
+			}
+		}
+	}
+	return false
+}
+
+// concurrent evaluation: base = m0; lvl{c=x0} = base*..; lvl{c=x1} = base*..; total = sum(lvl)
+// (several earlier rules with the SAME name consumed by a later rule), and the variant whose
+// consumer selects two differently named producers with a regex __name__ matcher.
+func concCorpus() [][]op {
+	m0a0 := lset{{0, 0}, {1, 0}}
+	m0a1 := lset{{0, 0}, {1, 1}}
+	mk := func(cons exprSpec, p2name int) []op {
+		rs := []ruleSpec{
+			{Name: 10, E: sel(0)},
+			{Name: 11, Labels: lset{{3, 0}}, E: exprSpec{Name: 10, Mul: 2, Add: 0}},
+			{Name: p2name, Labels: lset{{3, 1}}, E: exprSpec{Name: 10, Mul: 3, Add: 1}},
+			{Name: 13, E: cons},
+		}
+		ops := []op{{Kind: "load", G: 0, Rules: rs, What: "new"}}
+		for k := int64(0); k < 4; k++ {
+			t := 600000 + 15000*k
+			ops = append(ops, op{Kind: "raw", L: m0a0, T: t, V: 1 + k}, op{Kind: "raw", L: m0a1, T: t, V: 10 + 2*k},
+				op{Kind: "eval", G: 0, T: t})
+		}
+		return ops
+	}
+	return [][]op{
+		mk(exprSpec{Name: 11, By: true, ByMask: 1 << 1, Mul: 1, Add: 0}, 11),
+		mk(exprSpec{Name: 11, Mul: 1, Add: 0}, 11),
+		mk(exprSpec{Name: 11, NameRe: []int{11, 12}, By: true, ByMask: 1<<1 | 1<<3, Mul: 1, Add: 0}, 12),
+	}
+}
+
+// genConcCase: one group in which every rule reads raw metrics or EARLIER rules only and all
+// rules write distinct series, so that concurrent evaluation must give the sequential result.
+func genConcCase(r *gen.Rand, regex bool) []op {
+	var raws []lset
+	seen := map[string]bool{}
+	for n := 2 + r.Intn(3); len(raws) < n; {
+		l := lset{{0, r.Intn(2)}, {1, r.Intn(3)}}
+		if r.Bool() {
+			l = append(l, [2]int{2, r.Intn(2)})
+		}
+		if !seen[l.key()] {
+			seen[l.key()] = true
+			raws = append(raws, l)
+		}
+	}
+	arith := func(name int) exprSpec {
+		e := exprSpec{Name: name, Mul: r.PickI64(1, 2, -1, 3), Add: r.Range(-3, 3)}
+		if r.Chance(1, 4) {
+			e.GT, e.GTV = true, r.Range(-4, 6)
+		}
+		return e
+	}
+	// base rules (names 10, 14), producers (name 11, optionally 12), consumers (13, 15)
+	rs := []ruleSpec{{Name: 10, E: arith(r.Intn(2))}}
+	if r.Bool() {
+		rs = append(rs, ruleSpec{Name: 14, E: arith(r.Intn(2))})
+	}
+	np := 2 + r.Intn(2)
+	for k := 0; k < np; k++ {
+		name := 11
+		if regex && k == np-1 {
+			name = 12
+		}
+		rs = append(rs, ruleSpec{Name: name, Labels: lset{{3, k}}, E: arith(10)})
+	}
+	if r.Bool() { // an unrelated rule between producers and consumer
+		rs = append(rs, ruleSpec{Name: 15, Labels: lset{{4, 0}}, E: arith(r.Intn(2))})
+	}
+	cons := exprSpec{Name: 11, Mul: r.PickI64(1, 2), Add: r.Range(0, 2)}
+	if regex {
+		cons.NameRe = []int{11, 12}
+		cons.By, cons.ByMask = true, 1<<1|1<<3
+	} else if r.Bool() {
+		cons.By, cons.ByMask = true, (r.Intn(4))<<1
+	}
+	rs = append(rs, ruleSpec{Name: 13, E: cons})
+	if r.Chance(1, 3) { // a second consumer, of the first consumer
+		rs = append(rs, ruleSpec{Name: 15, Labels: lset{{4, 1}}, E: arith(13)})
+	}
+	ops := []op{{Kind: "load", G: 0, Rules: rs, What: "new"}}
+	vals := make([]int64, len(raws))
+	T := int64(600000)
+	for s := 0; s < 3+r.Intn(3); s++ {
+		T += r.PickI64(15000, 30000)
+		for i, l := range raws {
+			vals[i] += 1 + r.Range(0, 3) // always changes: a missed same-timestamp result shows
+			if r.Chance(1, 8) {
+				ops = append(ops, op{Kind: "raw", L: l, T: T, Stale: true})
+				continue
+			}
+			ops = append(ops, op{Kind: "raw", L: l, T: T, V: vals[i]})
+		}
+		ops = append(ops, op{Kind: "eval", G: 0, T: T})
+	}
+	return ops
 }
 
 // ---------- main ----------
@@ -1111,13 +1326,26 @@ func main() {
 	metrics := rules.NewGroupMetrics(nil)
 	distinct := map[string]bool{}
 
-	runCase := func(id int, ops []op, isCorpus bool) {
-		s, err := newSut(eng, metrics)
+	// the real dependency analysis + concurrent controller, used to record the batches of every load
+	ana := &rules.ManagerOptions{ConcurrentEvalsEnabled: true, MaxConcurrentEvals: 4, Metrics: metrics}
+	rules.NewManager(ana)
+
+	// mode 0: sequential run, judged by Coq.  mode 1: additionally the same history with
+	// concurrent rule evaluation enabled (delayed producer queries); the storage contents must
+	// be those of the sequential run.  mode 2: like 1 but Go-side only (expressions outside
+	// the model's language: regex __name__ matchers).
+	runCase := func(id int, ops []op, isCorpus bool, mode int) {
+		s, err := newSut(eng, metrics, false)
 		if err != nil {
 			panic(err)
 		}
 		p := &printer{tbl: map[string]int{}, s: s}
-		var opStr, evStr []string
+		var opStr, evStr, btStr []string
+		for _, o := range ops {
+			if o.Kind == "load" {
+				btStr = append(btStr, ints(s.batches(ana, o)...))
+			}
+		}
 		markersOK, reloads := 0, 0
 		for _, o := range ops {
 			opStr = append(opStr, p.op(o))
@@ -1186,6 +1414,46 @@ func main() {
 				meta.Hit("group-eval")
 			}
 		}
+		if mode > 0 {
+			meta.Hit("concurrent-comparison")
+			seqText := s.dumpText()
+			cs, err := newSut(eng, metrics, true)
+			if err != nil {
+				panic(err)
+			}
+			for _, o := range ops {
+				cs.exec(o)
+			}
+			concText := cs.dumpText()
+			if strings.Join(seqText, "\n") != strings.Join(concText, "\n") {
+				what := "storage contents after concurrent rule evaluation differ from sequential evaluation"
+				for i := 0; i < len(seqText) || i < len(concText); i++ {
+					a, b := "", ""
+					if i < len(seqText) {
+						a = seqText[i]
+					}
+					if i < len(concText) {
+						b = concText[i]
+					}
+					if a != b {
+						what += fmt.Sprintf(": sequential %q concurrent %q", a, b)
+						break
+					}
+				}
+				s.viol = append(s.viol, what)
+			}
+			s.viol = append(s.viol, cs.viol...)
+			cs.close()
+		}
+		if mode == 2 {
+			s.close()
+			meta.Case(id, desc{Shape: "concurrent-go-only", Corpus: isCorpus, Ops: ops, Viol: s.viol})
+			for _, v := range s.viol {
+				meta.GoViol = append(meta.GoViol, gallina.GoViolation{ID: strconv.Itoa(id), Shape: "concurrent-differs", What: v})
+			}
+			meta.Evaluations += len(ops)
+			return
+		}
 		var stStr []string
 		for _, d := range s.dump() {
 			vs := []int64{int64(p.idxLabels(d.L))}
@@ -1205,7 +1473,7 @@ func main() {
 			meta.Case(id, desc{Shape: "dropped-transport-range", Corpus: isCorpus, Ops: ops, Viol: s.viol})
 			return
 		}
-		cf.Add(fmt.Sprintf("mkCase %d\n  %s\n  %s\n  %s\n  %s", id, ints(tb...), list(opStr), list(evStr), list(stStr)))
+		cf.Add(fmt.Sprintf("mkCase %d\n  %s\n  %s\n  %s\n  %s\n  %s", id, ints(tb...), list(opStr), list(evStr), list(stStr), list(btStr)))
 		key := strings.Join(opStr, "")
 		if markersOK > 0 && reloads > 0 && !distinct[key] {
 			distinct[key] = true
@@ -1213,19 +1481,42 @@ func main() {
 		}
 		meta.Case(id, desc{Shape: "history", Corpus: isCorpus, Ops: ops, Viol: s.viol})
 		for _, v := range s.viol {
-			meta.GoViol = append(meta.GoViol, gallina.GoViolation{ID: strconv.Itoa(id), Shape: "harness-observation", What: v})
+			shape := "harness-observation"
+			if strings.HasPrefix(v, "storage contents after concurrent") {
+				shape = "concurrent-differs"
+			}
+			meta.GoViol = append(meta.GoViol, gallina.GoViolation{ID: strconv.Itoa(id), Shape: shape, What: v})
 		}
 		meta.Evaluations += len(ops)
 	}
 
 	id := 0
 	for _, ops := range corpus() {
-		runCase(id, ops, true)
+		runCase(id, ops, true, 0)
 		id++
 	}
-	n := f.Count(60, 1400)
+	for _, ops := range concCorpus() {
+		mode := 1
+		if hasRegex(ops) {
+			mode = 2
+		}
+		runCase(id, ops, true, mode)
+		id++
+	}
+	n := f.Count(56, 1300)
 	for i := 0; i < n; i++ {
-		runCase(id, genCase(gen.Fork(f.Seed, i), f.Tier), false)
+		runCase(id, genCase(gen.Fork(f.Seed, i), f.Tier), false, 0)
+		id++
+	}
+	// concurrent evaluation stream (independent generator indexes)
+	nc := f.Count(8, 120)
+	for i := 0; i < nc; i++ {
+		ops := genConcCase(gen.Fork(f.Seed, 1000000+i), i%3 == 2)
+		mode := 1
+		if hasRegex(ops) {
+			mode = 2
+		}
+		runCase(id, ops, false, mode)
 		id++
 	}
 	cf.Flush()
